@@ -262,6 +262,26 @@ def Acc.all : List Acc :=
    .ioCostCumulative, .ioCostRate, .averageUsage, .memoryGrowth, .rawProtection,
    .memoryProtection, .effectiveUsage, .effectiveSwapMax, .effectiveSwapFree, .effectiveSwapUtil]
 
+/-- name of the accessor in `CgroupContext.cpp` (`rawProtection` is a file-local helper, not an accessor) -/
+def Acc.cxxName : Acc → Option String
+  | .currentUsage => some "current_usage" | .swapUsage => some "swap_usage" | .swapMax => some "swap_max"
+  | .memoryLow => some "memory_low" | .memoryMin => some "memory_min" | .memoryHigh => some "memory_high"
+  | .memoryHighTmp => some "memory_high_tmp" | .memoryMax => some "memory_max" | .nrDying => some "nr_dying_descendants"
+  | .isPopulated => some "is_populated" | .oomGroup => some "oom_group" | .memPressure => some "mem_pressure"
+  | .memPressureSome => some "mem_pressure_some" | .ioPressure => some "io_pressure" | .ioPressureSome => some "io_pressure_some"
+  | .memoryStat => some "memory_stat" | .ioStat => some "io_stat" | .anonUsage => some "anon_usage"
+  | .fileUsage => some "file_usage" | .shmemUsage => some "shmem_usage" | .pgScanCumulative => some "pg_scan_cumulative"
+  | .pgScanRate => some "pg_scan_rate" | .ioCostCumulative => some "io_cost_cumulative" | .ioCostRate => some "io_cost_rate"
+  | .averageUsage => some "average_usage" | .memoryGrowth => some "memory_growth" | .rawProtection => none
+  | .memoryProtection => some "memory_protection" | .effectiveUsage => some "effective_usage"
+  | .effectiveSwapMax => some "effective_swap_max" | .effectiveSwapFree => some "effective_swap_free"
+  | .effectiveSwapUtil => some "effective_swap_util_pct"
+
+/-- accessors of `CgroupContext` that read no control file: the directory listing (`getChildren` returns an empty list when
+the listing fails - modelled in `Fault.readDirUnknownType` and exercised by the tick-level fault runs), the inode number
+(`fstat` on the held descriptor) and the kill preference (`fgetxattr` probes, C03 / C15) -/
+def notFileAccessors : List String := ["children", "id", "kill_preference"]
+
 /-- the tick history of one cgroup that the temporal accessors read (`archive_`) -/
 structure Archive where
   avg : Int
